@@ -15,6 +15,7 @@ import (
 	"github.com/sdcio/cache/proto/cachepb"
 	"github.com/sdcio/data-server/pkg/cache"
 	"github.com/sdcio/data-server/pkg/config"
+	schemaClient "github.com/sdcio/data-server/pkg/datastore/clients/schema"
 	"github.com/sdcio/data-server/pkg/datastore/target"
 	sdcpb "github.com/sdcio/sdc-protos/sdcpb"
 
@@ -516,11 +517,14 @@ func (c *c13) RunCase(w *core.Worker, idx int, seed uint64, res *core.CaseResult
 		case 7:
 			wire = "get"
 			script = nil
+		case 5:
+			wire = "nc-get"
+			script = nil
 		}
 	}
 	desc := fmt.Sprintf("W=%d validate=%v", W, validate)
 	if wire != "" {
-		desc += " gnmi-wire=" + wire
+		desc += " wire=" + wire
 	}
 	if directed != "" {
 		desc += " directed: " + directed
@@ -565,7 +569,29 @@ func (c *c13) RunCase(w *core.Worker, idx int, seed uint64, res *core.CaseResult
 	}
 	dsOpts := fixture.DSOpts{Cache: fc, Sync: &config.Sync{Validate: validate, Buffer: 4096, WriteWorkers: int64(W)}}
 	var gdev *fixture.GNMIDevice
-	if wire != "" {
+	var ncdev *fixture.NCDevice
+	if wire == "nc-get" {
+		// the production NETCONF target (scrapligo over SSH) fetches the configuration of a NETCONF device on loopback
+		// periodically; every get-config is a complete re-sync cycle (xml2SchemapbAdapter, ncTarget.internalSync)
+		var err error
+		if ncdev, err = fixture.NewNCDevice(); err != nil {
+			res.Inconclusive("C13/wire/no-device", "%v", err)
+			return
+		}
+		defer ncdev.Close()
+		sbi := &config.SBI{Type: "netconf", Address: "127.0.0.1", Port: ncdev.Port(), ConnectRetry: time.Second, Timeout: 3 * time.Second,
+			Credentials: &config.Creds{Username: "u", Password: "p"}, NetconfOptions: &config.SBINetconfOptions{CommitDatastore: "candidate"}}
+		scb := schemaClient.NewSchemaClientBound(fixture.SchemaConfig().GetSchema(), c.env.Schema)
+		tg, err := target.New(context.Background(), "c13n", sbi, scb)
+		if err != nil {
+			res.Inconclusive("C13/wire/connect", "%v", err)
+			return
+		}
+		dsOpts.Target = tg
+		dsOpts.Sync.Config = []*config.SyncProtocol{{Name: "config", Protocol: "netconf", Paths: []string{"/sys", "/if", "/if-x", "/ifx", "/peer", "/duo"}, Interval: 60 * time.Millisecond}}
+		res.Count("netconf_wire_cases", 1)
+	}
+	if wire == "stream" || wire == "get" {
 		var err error
 		if gdev, err = fixture.NewGNMIDevice(); err != nil {
 			res.Inconclusive("C13/wire/no-device", "%v", err)
@@ -669,7 +695,7 @@ func (c *c13) RunCase(w *core.Worker, idx int, seed uint64, res *core.CaseResult
 		return true
 	}
 	nNotif, nDel, prunes := 0, 0, 0
-	if wire == "get" {
+	if wire == "get" || wire == "nc-get" {
 		// every Get is a complete re-sync cycle (start, what the device holds, end): after a cycle that began after the
 		// device changed, the running store is exactly what the device holds
 		g.mu.Lock()
@@ -706,12 +732,19 @@ func (c *c13) RunCase(w *core.Worker, idx int, seed uint64, res *core.CaseResult
 			script = append(script, syncItem{End: true})
 			nNotif += len(notifs)
 			prunes++
-			gdev.SetGetNotifs(notifs)
+			numGets := func() int { return 0 }
+			if wire == "get" {
+				gdev.SetGetNotifs(notifs)
+				numGets = gdev.NumGets
+			} else {
+				ncdev.SetGetConfigDoc(model.EncodeXML(m.config))
+				numGets = ncdev.NumGetConfigs
+			}
 			// quiescence by observation, not by time: (1) two Get rpcs after the change have arrived (the cycle of the
 			// first is completely in the sync channel), (2) the sync channel has been drained, (3) after that a cycle
 			// has been started and (4) a cycle has been ended and pruned
-			g0 := gdev.NumGets()
-			ok := waitFor(20*time.Second, func() bool { return gdev.NumGets() >= g0+2 }) &&
+			g0 := numGets()
+			ok := waitFor(20*time.Second, func() bool { return numGets() >= g0+2 }) &&
 				waitFor(20*time.Second, func() bool { return len(ch) == 0 })
 			if ok {
 				c1 := fc.Count("CreatePruneID")
@@ -736,7 +769,7 @@ func (c *c13) RunCase(w *core.Worker, idx int, seed uint64, res *core.CaseResult
 		}
 	}
 	for _, it := range script {
-		if wire == "get" {
+		if wire == "get" || wire == "nc-get" {
 			break
 		}
 		if len(res.Findings) > 0 {
@@ -759,7 +792,7 @@ func (c *c13) RunCase(w *core.Worker, idx int, seed uint64, res *core.CaseResult
 			nDel += len(it.Dels)
 		}
 	}
-	if len(res.Findings) == 0 && wire != "get" {
+	if len(res.Findings) == 0 && wire != "get" && wire != "nc-get" {
 		if !barrier() {
 			res.Inconclusive("C13/barrier-timeout", "%s: the final barrier was not reached within 20 s", desc)
 			return
